@@ -28,6 +28,9 @@ def main(argv=None):
             mod.selftest()
         regress.replay_regressions(ctx, mod)
         mod.run(ctx)
+        for v in ctx.violations:
+            if v['sub'] not in getattr(mod, 'SUBS', {}):
+                raise core.HarnessError(f"violation with sub-check {v['sub']!r} cannot be replayed (not in SUBS)")
         rc = core.finish(
             ctx,
             rule=mod.RULE,
